@@ -11,6 +11,8 @@
    (fseemit rec root (ino ...) ((pathstring ino flags) ...) ORACLES) -> (some (EV ...) (ino ...) stop) | none
    (fsecontract root FS_before FS_after OP ((path tree) ...)) -> (EV ...)
    (coalesce ((pathstring ino flags) ...)) -> same
+   (onerename FS (OP ...)) -> 0/1      no item is the subject of two rename-flagged operations in the batch
+   (distinct ((pathstring ino flags) ...)) -> 0/1   no two events share (path, inode)
    EV = (C kind path syn) | (D kind path) | (M kind path) | (V kind src dst syn) *)
 open Sexp
 open Conv
@@ -83,5 +85,8 @@ let run = function
   | L [A "fsecontract"; root; fb; fa; o; subs] ->
     sx_list (fun e -> sx_ev (PlatFs.render (bytes_of root) e))
       (FsEvents.fse_contract (subs_of subs) (fs_of fb) (fs_of fa) (op_of o))
+  | L [A "onerename"; f; L ops] ->
+    sx_bool (FsEvents.one_rename_per_item (fs_of f) (Stdlib.List.map op_of ops))
+  | L [A "distinct"; ns] -> sx_bool (FsEvents.distinct_itemsb (list_of fnat_of ns))
   | L [A "coalesce"; ns] -> sx_list sx_fnat (FsEvents.coalesce_all (list_of fnat_of ns))
   | _ -> failwith "platemit: bad case"
